@@ -119,7 +119,8 @@ pub fn reference(p: &[f64], t: &[f64]) -> Expect {
         let guard = 2.0 * ratio * 1e-10 / sst;
         let evnum = sse - n * emean * emean;
         (
-            Some((1.0 - ratio, ratio.max(1.0), guard)),
+            // r2 guards only a constant target since a02735e: no slack for it any more
+            Some((1.0 - ratio, ratio.max(1.0), 0.0)),
             Some((1.0 - evnum / sst, ratio.max(1.0), guard)),
             Some(1.0 - (sse - emean) / (sst + 1e-10)),
         )
@@ -548,6 +549,77 @@ pub fn run_regr_multi_scaled<F: Float>(outer: &Case, float: &str, pred_cols: &[V
         for i in 0..8 {
             let o: Result<f64, String> = res[i].as_ref().map(|v| v.get(j).copied().unwrap_or(f64::NAN)).map_err(|e| e.clone());
             judge_scaled(i, &o, &pc, &tc, fac(j), &tol, outer, json!({"column": j}), &mut cnt, viols);
+        }
+    }
+    cnt
+}
+
+// ---------------------------------------------------------------------------------------------
+// translation: prediction and truth moved by a common offset (value -> offset + step * value).
+// max / mean / median absolute error, MSE, R2 and explained variance do not move. The reference is
+// the definition on the CENTRED values x - offset (that subtraction is exact in f64 for the values as
+// the subject sees them), i.e. the definition evaluated without any rounding caused by the offset.
+// Tolerance = the usual relative one + the conditioning of the definition's own two-pass arithmetic:
+// the differences p - t and t - mean are exact, only the mean itself carries an error
+// delta <= n * u * |offset|, which enters SStot as n * delta^2 (second order).
+// ---------------------------------------------------------------------------------------------
+
+const TRANSLATION_INVARIANT: [bool; 8] = [true, true, true, false, true, false, true, true];
+
+pub fn run_regr_shifted<F: Float>(outer: &Case, float: &str, pred: &[f64], truth: &[f64], offset: f64, step: f64, viols: &mut Sink) -> Cnt {
+    let mut cnt = Cnt::default();
+    let tol = tol_of(float);
+    let u = if float == "f32" { f32::EPSILON as f64 / 2.0 } else { f64::EPSILON / 2.0 };
+    let n = pred.len();
+    let p: Array1<F> = arr(&pred.iter().map(|x| offset + step * x).collect::<Vec<_>>());
+    let t: Array1<F> = arr(&truth.iter().map(|x| offset + step * x).collect::<Vec<_>>());
+    let pc: Vec<f64> = back(&p).iter().map(|x| x - offset).collect();
+    let tc: Vec<f64> = back(&t).iter().map(|x| x - offset).collect();
+    let exp = reference(&pc, &tc);
+    cnt.evals += 1;
+    cnt.nontrivial += 1;
+    cnt.bump("shift.regression_cases", 1);
+    let tmean = tc.iter().sum::<f64>() / n as f64;
+    let sst: f64 = tc.iter().map(|x| (x - tmean) * (x - tmean)).sum();
+    let delta = n as f64 * u * (offset.abs() + tc.iter().fold(0.0f64, |m, x| m.max(x.abs())));
+    let r = eight::<F, _, _>(&p, &t);
+    for i in 0..8 {
+        if !TRANSLATION_INVARIANT[i] {
+            continue;
+        }
+        let Some((e, scale, slack)) = exp.v[i] else {
+            cnt.bump("shift.metric_inputs_out_of_domain", 1);
+            continue;
+        };
+        cnt.bump("shift.values_compared", 1);
+        // conditioning of the two-pass definition (r2 / explained variance only)
+        let cond = if i >= 6 && sst > 0.0 { 4.0 * scale * (n as f64 * delta * delta / sst) } else { 0.0 };
+        let a = json!({"metric": NAMES[i], "offset": offset, "step": step});
+        match &r[i] {
+            Ok(o) => {
+                if !closef(*o, e, tol.rel, tol.abs + slack + cond, scale) {
+                    let sig = if i == 7 && exp.ev_wrong_closed_form.map_or(false, |w| closef(*o, w, tol.rel, tol.abs + slack + cond, scale)) {
+                        "regression.explained_variance.subtracts_mean_error_instead_of_n_mean_error_squared".to_string()
+                    } else {
+                        format!("regression.{}.translation_dependence", NAMES[i])
+                    };
+                    report!(
+                        viols,
+                        sig,
+                        outer,
+                        a,
+                        "{} on prediction and truth both moved to {:e} + {} * value = {:e}; the definition on the centred values gives {:e} (allowed: relative {:e} + {:e})",
+                        NAMES[i],
+                        offset,
+                        step,
+                        o,
+                        e,
+                        tol.rel,
+                        tol.abs + slack + cond
+                    );
+                }
+            }
+            Err(msg) => report!(viols, format!("regression.{}.error_or_panic", NAMES[i]), outer, a, "{} on shifted input: {}", NAMES[i], msg),
         }
     }
     cnt
